@@ -40,8 +40,9 @@ class Parser:
     """Strict RFC 8259 grammar.  max_depth: values enclosed by more than max_depth-1 containers are an
     error (None = unlimited).  Iterative-free recursive descent is fine for the depths used here."""
 
-    def __init__(self, s, max_depth=None):
+    def __init__(self, s, max_depth=None, allow_ctrl=False):
         self.s, self.n, self.i, self.max_depth = s, len(s), 0, max_depth
+        self.allow_ctrl = allow_ctrl  # json-c extension used by C16's oracle: raw control bytes inside strings
 
     def ws(self):
         s, n, i = self.s, self.n, self.i
@@ -129,7 +130,7 @@ class Parser:
                 flush_hi()
                 self.i = i + 1
                 return bytes(out)
-            if c < 0x20:
+            if c < 0x20 and not self.allow_ctrl:
                 raise JSONError(i, "control byte in string")
             if c != 0x5C:
                 flush_hi()
@@ -219,8 +220,8 @@ class Parser:
                 raise JSONError(self.i - 1, "',' expected")
 
 
-def parse(s, max_depth=None):
-    return Parser(s, max_depth).parse()
+def parse(s, max_depth=None, allow_ctrl=False):
+    return Parser(s, max_depth, allow_ctrl).parse()
 
 
 def dbits(f):
